@@ -90,6 +90,8 @@ func (g *Generator) validateRequest(req *plugin.Request) error {
 }
 
 func (g *Generator) preparePlugins(be backend.Backend, pds []*plugin.Desc) error {
+	// the generator is reused for every target: drop the plugins of the previous one
+	g.plugins = g.plugins[:0]
 	for _, d := range pds {
 		// TODO(lushaojie): check d
 
